@@ -53,6 +53,9 @@ op = st.one_of(
     st.tuples(st.just("writer"), st.integers(1, 12)).map(list),
     st.tuples(st.just("writer"), st.integers(1, 12)).map(list),
     st.tuples(st.just("writer"), st.integers(1, 40)).map(list),
+    # another data manager of the same process saves (FileManager is shared): to a path with a supported extension or
+    # to one no file interface is registered for (its save fails; ours must go on)
+    st.tuples(st.just("foreign_save"), st.sampled_from([".yaml", ".yml", ".json", ""])).map(list),
 )
 fault = st.one_of(
     st.none(),
@@ -211,6 +214,7 @@ def check_writer(case):
     vio = []
     classes = set()
     saved = []          # values handed to save_all, in order
+    foreign_failed = []
     # ---- patch the module namespaces the writer uses
     fake_time = types.SimpleNamespace(sleep=None, time=lambda: baton.fake_time)
 
@@ -289,6 +293,14 @@ def check_writer(case):
         for o in case["ops"]:
             if baton.crashed:
                 break
+            if o[0] == "foreign_save":
+                if not FileManager.is_busy and not baton.in_save:
+                    try:
+                        FileManager.save(os.path.join(tmp, "data", "other" + o[1]), {"x": 1})
+                    except Exception:   # pylint: disable=broad-except
+                        classes.add("another manager's save failed (no file interface)")
+                        foreign_failed.append(len(saved))
+                continue
             if o[0] == "save":
                 if baton.in_sleep and baton.trace and baton.trace[-1] == "sleep":
                     classes.add("save-during-rate-limit-sleep")
